@@ -46,6 +46,10 @@ Sqrt(s) == CASE s = 1 -> 1 [] s = 4 -> 2 [] s = 9 -> 3 [] s = 16 -> 4 [] s = 25 
 \* whitened singular value for kappa = n = 16
 W(s, a) == CASE a = 0 -> 4 [] a = 1 -> 2 * Sqrt(s) [] a = 2 -> s
 
+\* C16: eigenvalue (times 16) of the covariance (normalised by kappa = n = 16) of the
+\* whitened field for a mode with singular value s:  (s^2/16)^alpha
+WCovEig16(s, a) == CASE a = 0 -> 16 [] a = 1 -> 4 * s [] a = 2 -> s * s
+
 AlphaOf(f, al) == CASE f = "MCA" -> <<2, 2>> [] f = "CCA" -> <<0, 0>> [] f = "RDA" -> <<0, 2>> [] OTHER -> al
 
 RX(c) == Len(c.sx)
@@ -74,6 +78,8 @@ Predict(c) ==
                                    \/ Sigma75(c, o[i]) = 0],
         sumsq  |-> SumSeq([j \in 1..RY(c) |-> Sigma75(c, j) * Sigma75(c, j)]),     \* 75^2 * total squared covariance
         npairs |-> Cardinality({j \in 1..RY(c) : Matched(c, j)}),
+        wcovx16 |-> [i \in 1..RX(c) |-> WCovEig16(c.sx[i], AlphaOf(c.fam, c.alpha)[1])],
+        wcovy16 |-> [j \in 1..RY(c) |-> WCovEig16(c.sy[j], AlphaOf(c.fam, c.alpha)[2])],
         alpha  |-> AlphaOf(c.fam, c.alpha)]
 
 Admissible(c) ==
@@ -121,6 +127,15 @@ C09_FactorDependsOnNAlphaOnly ==
               (pred.c5[i] > 0 /\ pred.c5[j] > 0) =>
                  pred.sig75[i] * (PowNum(pred.sx[j], pred.alpha[1]) * PowNum(pred.sy[j], pred.alpha[2]) * pred.c5[j])
                = pred.sig75[j] * (PowNum(pred.sx[i], pred.alpha[1]) * PowNum(pred.sy[i], pred.alpha[2]) * pred.c5[i])
+
+\* C16: whitening with alpha = 0 gives the identity covariance, alpha = 1 leaves it
+\* unchanged, and the eigenvalues are the alpha-th powers in between
+C16_WhitenedCovIsPower ==
+    Done => \A i \in 1..RX(cfg) :
+              LET a == pred.alpha[1]  s == cfg.sx[i]  e == pred.wcovx16[i] IN
+                /\ (a = 0) => e = 16
+                /\ (a = 2) => e = s * s
+                /\ (a = 1) => e * e = 16 * (s * s)          \* e/16 = sqrt(s^2/16)
 
 \* C10: the named methods are CPCCA at their special alphas
 C10_NamedIsSpecialCase ==
